@@ -639,7 +639,22 @@ void JitCompilerA64::h_ISUB_R(Instruction& instr, uint32_t& codePos)
 	}
 	else
 	{
-		emitAddImmediate(dst, dst, -instr.getImm32(), code, k);
+		const uint32_t imm = -instr.getImm32();
+		if (imm < (1 << 24))
+		{
+			// small positive addend: add dst, dst, -imm32
+			emitAddImmediate(dst, dst, imm, code, k);
+		}
+		else
+		{
+			// Subtract the sign-extended immediate. Adding the negated 32-bit value is wrong for
+			// imm32 = 0x80000000: -imm32 wraps to 0x80000000 and would be sign-extended to -2^31.
+			constexpr uint32_t tmp_reg = 20;
+			emitMovImmediate(tmp_reg, instr.getImm32(), code, k);
+
+			// sub dst, dst, tmp_reg
+			emit32(ARMV8A::SUB | dst | (dst << 5) | (tmp_reg << 16), code, k);
+		}
 	}
 
 	reg_changed_offset[instr.dst] = k;
